@@ -261,6 +261,24 @@ pub fn run(em: &mut Emit, thorough: bool, seed: u64) {
             }
         }
     }
+    // long literals: mixed verbatim / escaped spellings with lengths around buffer-size thresholds
+    for &len in &[15usize, 16, 17, 31, 32, 33, 63, 64, 65, 127, 128, 129, 255, 256, 257, 1000] {
+        for _ in 0..(if thorough { 6 } else { 2 }) {
+            let target: Vec<char> = (0..len).map(|_| *rng.pick(&alpha)).collect();
+            let cps: Vec<u32> = target.iter().map(|c| *c as u32).collect();
+            for mut st in styles() {
+                st.upper_prefix = rng.chance(1, 2);
+                if let Some(src) = render_string(&mut rng, &st, &target) {
+                    let exp = if st.bytes {
+                        expected_bytes(&target.iter().collect::<String>().into_bytes())
+                    } else {
+                        expected_str(&cps)
+                    };
+                    emit_lit(em, &src, Some(exp), "long-string");
+                }
+            }
+        }
+    }
     // embedded quotes and newlines in triple-quoted forms; raw literals take everything verbatim
     for (src, exp) in [
         ("\"\"\"a\"b\"\"\"", Some("a\"b")), ("'''a'b'''", Some("a'b")), ("\"\"\"a\"\"b\"\"\"", Some("a\"\"b")),
